@@ -190,12 +190,47 @@ def plainly_assigned_locals(fn):
     return {d: vs for d, vs in vals.items() if d not in bad and vs}
 
 
+def assigned_value_sets(fn):
+    """like plainly_assigned_locals, but a local that is also updated by compound assignments (`off += n`) or ++ / -- stands for the
+    set of everything that flows into it: its initialiser, the assigned values and the right-hand sides of the compound updates"""
+    vals, bad = {}, set()
+
+    def v(n):
+        k = n.get("k")
+        if k == "Decl":
+            for x in n.get("vars", []):
+                if "d" in x:
+                    vals.setdefault(x["d"], [])
+                    if x.get("init") is not None:
+                        vals[x["d"]].append(x["init"])
+        elif k == "Assign":
+            t = strip(n.get("l"))
+            if isinstance(t, dict) and t.get("k") == "Ref":
+                vals.setdefault(t.get("d"), []).append(n.get("r"))
+        elif k == "Un" and n.get("op") == "&":
+            t = strip(n.get("e"))
+            if isinstance(t, dict) and t.get("k") == "Ref":
+                bad.add(t.get("d"))
+        elif k == "Call" and n.get("cname") in ("copy_from_mem", "memcpy", "read"):
+            args = n.get("args", [])
+            di = 0 if n["cname"] == "memcpy" else 1
+            if len(args) > di:
+                a = strip(args[di])
+                if isinstance(a, dict) and a.get("k") == "Un" and a.get("op") == "&":
+                    a = strip(a.get("e"))
+                if isinstance(a, dict) and a.get("k") == "Ref":
+                    bad.add(a.get("d"))
+    walk(fn.get("body"), v)
+    return {d: vs for d, vs in vals.items() if d not in bad and vs}
+
+
 def flat_env(fn):
     """canon_env with single-assignment locals standing for their initialisers (hoisting a sub-expression into a const local, or
     inlining one, does not change the identifiers / constants of a condition)"""
     from astu import single_assignment_locals
     env = dict(canon_env(fn))
     pa = plainly_assigned_locals(fn)
+    av = assigned_value_sets(fn)
     for d, ident in list(env.items()):
         if (ident.startswith("=") or ident.startswith("local<")) and d in pa:
             # a self-referencing update (x = f(x)) cannot be flattened
@@ -204,6 +239,13 @@ def flat_env(fn):
                 walk(val, lambda x: selfref.__setitem__(0, True) if x.get("k") == "Ref" and x.get("d") == d else None)
             if not selfref[0]:
                 env[d] = ("expr", pa[d] if len(pa[d]) > 1 else pa[d][0], None)
+        elif ident.startswith("=") and d in av and d not in pa:
+            # initialised and then updated in place (`off = a; off += b;`): the value set, whatever the spelling of the first value
+            selfref = [False]
+            for val in av[d]:
+                walk(val, lambda x: selfref.__setitem__(0, True) if x.get("k") == "Ref" and x.get("d") == d else None)
+            if not selfref[0]:
+                env[d] = ("expr", av[d] if len(av[d]) > 1 else av[d][0], None)
     return env
 
 
@@ -363,7 +405,14 @@ def inventory(facts):
                     def v2(n):
                         k = n.get("k")
                         if k == "Ref" and "v" not in n:
-                            ids.append(env.get(n.get("d"), n.get("n")))
+                            b = env.get(n.get("d"), n.get("n"))
+                            if isinstance(b, tuple):
+                                ti, tc = [], []
+                                idc(n, env, ti, tc)
+                                ids.extend(ti)
+                                consts.extend(tc)
+                            else:
+                                ids.append(b)
                         elif k == "Member" and "v" not in n:
                             ids.append(n.get("n") or n.get("f"))
                         elif k == "Call":
@@ -374,7 +423,7 @@ def inventory(facts):
                     text = ("!" if neg else "") + txt(core)
                     if any(d["text"] == text for d in lits):
                         continue
-                    lits.append({"op": "not" if neg else "is", "ids": sorted(x for x in ids if x), "consts": sorted(consts), "text": text})
+                    lits.append({"op": "not" if neg else "is", "ids": sorted(str(x) for x in ids if x), "consts": sorted(consts, key=lambda x: (str(type(x)), x)), "text": text})
             for t in chain_tail:
                 if any(d["ids"] == t["ids"] and d["op"] == "!=" and len(d["consts"]) == 1 for d in lits) and not any(d["text"] == t["text"] for d in lits):
                     lits.append(t)
